@@ -244,7 +244,7 @@ pub fn property() -> Property {
             Box::new(Sub {
                 name: "graphs",
                 rule: "Tanner graphs up to 10 x 10 (thorough 16 x 16) by class: random forests; a cycle of length 4..10 with pendant trees grown on row and column nodes; two cycles of different length (disjoint, or joined by an edge or through trees); theta graphs (cycle + chord path); dense random; complete bipartite block with pendants; forests plus 1-3 random extra edges; rows and columns relabelled at random. For every graph: every node as root, bounds 0..=22 and usize::MAX. Oracle: plain queue BFS distances; shortest cycle through v = min over edges (v,w) of 1 + dist in G-(v,w) from w to v; girth = min over nodes; bounded variants = that value if <= bound else None. Non-trivial = cyclic graph with a root that is off every shortest cycle or on no cycle; inner = (root, bound) evaluations",
-                cases: |t| t.pick(20_000, 500_000),
+                cases: |t| t.pick(200_000, 5_000_000),
                 strategy: |t| strategy(t.pick(10, 16)),
                 check,
                 health: &[("root-off-every-shortest-cycle", 0.20), ("root-on-no-cycle-in-cyclic-graph", 0.10)],
